@@ -58,7 +58,7 @@ impl Drop for AssignedCredits {
             && let Some(port) = self.port_inner.upgrade()
         {
             let mut port = port.lock().unwrap();
-            port.credits += self.port;
+            port.credits = port.credits.saturating_add(self.port);
         }
     }
 }
